@@ -71,9 +71,15 @@ pub(crate) struct DropAll(Weak<GuardInner>);
 impl Drop for DropAll {
     fn drop(&mut self) {
         if let Some(guard) = self.0.upgrade() {
+            #[cfg(metrique_verif)]
+            metrique_writer_core::verif::point(10);
             if let Some(f) = guard.lock().unwrap().take() {
+                #[cfg(metrique_verif)]
+                metrique_writer_core::verif::point(11);
                 (f)()
             }
+            #[cfg(metrique_verif)]
+            metrique_writer_core::verif::point(12);
         }
     }
 }
